@@ -234,6 +234,9 @@ func runCase(c Case) (*ev.Failure, bool) {
 			return ev.Failf("%s: SendSet over %s failed: %v", what, c.Transport, err)
 		}
 		exph.ReleaseAdopted()
+		if !exph.PlaceholdersIntact() {
+			return ev.Failf("%s: setting an address element's value wrote into the all-zero placeholder the element had been created with (memory shared with other elements)", what)
+		}
 		if gentle {
 			time.Sleep(5 * time.Millisecond)
 		}
